@@ -6,6 +6,7 @@ mod cprcheck;
 mod decoder;
 mod framecheck;
 mod framegen;
+mod helper;
 mod readercheck;
 mod refcpr;
 mod refdec;
@@ -27,6 +28,9 @@ fn usage() -> ! {
 
 fn main() {
     let args: Vec<String> = std::env::args().collect();
+    if args.len() >= 2 && args[1] == "helper" {
+        helper::main();
+    }
     if args.len() < 3 {
         usage();
     }
